@@ -5,6 +5,7 @@
    The runtime half (the pickler is deterministic across interpreters and string-hash seeds, pickling the compiled
    function keeps the digests) is compared on the real code by the check. *)
 From Connectome Require Import Values Attrs VM Edges EdgesGen HashSound HashFacts GraphHashModel SpecEq Examples.
+From Connectome Require ColStore ColumnsGen Columns ColumnsFacts EqFacts.
 Local Open Scope list_scope.
 
 (* identity (inheritance, chaining stitches), cache, CheckIds edges: node hash = the first parent's hash *)
@@ -58,3 +59,16 @@ Proof.
   destruct (sem apply raises g ins f p) as [[hp vp]|]; [|discriminate]. cbn in H. congruence.
 Qed.
 Print Assumptions C07_identity_insertion.
+
+(* ---------- column caches: the order in which `ids` lists the keys does not matter ----------
+   A request through a column gives the same result, the same stores (hence the same disk keys of the shards) and
+   runs the same things whatever order the dataset lists its ids in, provided sorted() depends only on the multiset
+   of the keys.  Over the REGENERATED body of CachedColumn.evaluate / _get_shard. *)
+Theorem C07_column_request_ignores_ids_order :
+  forall (sorted : list val -> list val) (get_hash : nat -> val -> option nhash) (get_value : nat -> val -> option val)
+         col size key keys keys' st,
+  (forall l l', Permutation.Permutation l l' -> sorted l = sorted l') -> Permutation.Permutation keys keys' ->
+  Columns.column_request hpyeq heqb pyeq sorted get_hash get_value col size key keys st
+  = Columns.column_request hpyeq heqb pyeq sorted get_hash get_value col size key keys' st.
+Proof. intros sorted get_hash get_value. exact (ColumnsFacts.column_request_ids_order hpyeq heqb pyeq sorted get_hash get_value). Qed.
+Print Assumptions C07_column_request_ignores_ids_order.
